@@ -271,7 +271,11 @@ class Gate(QOperation):
 
         # calc new HS
         new_choi_matrix = eigenvecs @ diag @ eigenvecs.T.conjugate()
-        new_hs = to_hs_from_choi_with_sparsity(self.composite_system, new_choi_matrix)
+        new_hs = to_hs_from_choi_with_sparsity(
+            self.composite_system,
+            new_choi_matrix,
+            eps_truncate_imaginary_part=self.eps_truncate_imaginary_part,
+        )
 
         # create new Gate
         new_gate = Gate(
